@@ -201,7 +201,7 @@ static int state_attempt(const Abs& t, long long last_now_, long long ttl_, long
             c.m_mt.seed(4242); c2.m_mt.seed(4242); // both copies see the same draws
 #endif
             __vf_set_now(calls[0].now);
-            range_vs_singles(c, c2, rmethod, e, (size_t)rn, (uint8_t)calls[0].al, calls[0].pk != 0);
+            range_vs_singles(c, c2, rmethod, e, (size_t)rn, (uint8_t)calls[0].al, calls[0].pk != 0, t, calls[0].now);
             printf("state-mode[v%d] range method %d over %d elements vs singles: clause failures %d\n", g_variant, rmethod, rn, g_fail);
         }
         else
